@@ -3,5 +3,9 @@
 patch=$1; shift
 d=$(mktemp -d /tmp/pyvc_seed_XXXX); cp -r /repo/eaopack $d/
 if ! (cd $d && patch -p1 -s --no-backup-if-mismatch < $patch); then echo "PATCH DOES NOT APPLY to the current /repo tree: $patch"; rm -rf $d; exit 3; fi
-for p in "$@"; do PYVC_REPO=$d /verif/check $p 2>&1 | grep -E "VIOLATION|UNDECIDED|CHECKER|exit=|Traceback|Error" | sed 's#/verif/replays/##' | cut -c1-200 | head -6; done
+for p in "$@"; do
+  r=$(PYVC_REPO=$d /verif/check $p 2>&1)
+  echo "$r" | grep -E "VIOLATION|CHECKER|Traceback" | sed 's#/verif/replays/##' | cut -c1-200 | head -5
+  echo "$r" | grep -E "exit=" | tail -1
+done
 rm -rf $d
